@@ -542,7 +542,8 @@ class Func:
 
 
 def exec_pure(tr: GoTr, stmts: List[List[Tok]], env: Dict[str, Tuple[str, str]], ret: str) -> str:
-    """Symbolic execution of `if c { .. } [else { .. }]`, `x := e`, `return e`."""
+    """Symbolic execution of `if c { .. } [else { .. }]` (branches may fall through to the
+    following statements), `x := e`, `x = e` (reassignment), `return e`."""
     if not stmts:
         raise Broken(f"translator: {tr.what}: a path falls off the end without return")
     s, rest = stmts[0], stmts[1:]
@@ -580,6 +581,16 @@ def exec_pure(tr: GoTr, stmts: List[List[Tok]], env: Dict[str, Tuple[str, str]],
             env2[s[0][1]] = (tr.b(e, env), "bool")
         else:
             env2[s[0][1]] = tr.zt(e, env)
+        return exec_pure(tr, rest, env2, ret)
+    if len(s) >= 3 and s[0][0] == "id" and s[1] == ("op", "=") and s[0][1] in env:
+        # reassignment of a local / parameter: the new value is evaluated at the variable's type
+        p = P(s[2:], tr.what)
+        e = p.expr()
+        if not p.at_end():
+            p.fail("trailing tokens in assignment")
+        vt = env[s[0][1]][1]
+        env2 = dict(env)
+        env2[s[0][1]] = (tr.b(e, env), "bool") if vt == "bool" else (tr.z(e, env, vt), vt)
         return exec_pure(tr, rest, env2, ret)
     raise Broken(f"translator: {tr.what}: unsupported Go statement", " ".join(x[1] for x in s)[:200])
 
